@@ -144,6 +144,7 @@ def cases(tier, seed):
                                                        "runner_df")
                                          and (ii // len(DESCS) + ei) % 2 == 0),
                        "dictcases": j % 3 == 1,
+                       "sigrev": (ii // len(DESCS) + ei + si) % 3 == 0,
                        "strat": strats[(j + ei) % 4],
                        "types": "ifs"[j % 3] + "sfi"[(j // 2) % 3]
                        + "fis"[(j // 5) % 3]}
@@ -188,8 +189,11 @@ def check_case(case):
                   for i, a in enumerate(cnames)}
         coords.update(dict(gsub))
         dim_order = list(names)
-    f = xfn.make_fn(names + extra, kind=kind, name="f03",
-                    defaults={e: None for e in extra})
+    # (with "sigrev" the function's own signature lists the arguments in the
+    # opposite order to the one the Runner is told)
+    sigrev = bool(case.get("sigrev"))
+    f = xfn.make_fn((names[::-1] if sigrev else names) + extra, kind=kind,
+                    name="f03", defaults={e: None for e in extra})
     vn, vd = d["vn"][case["vn"]], d["vd"][case["vd"]]
     vc = d.get("vc") if d["vn"][0] is not None else None
     entry, strat = case["entry"], case["strat"]
@@ -242,11 +246,12 @@ def check_case(case):
                         f, list(cnames), cs, combos=combos, to_df=to_df,
                         **desc_kw, **kw)
             else:
+                fkw = {"fn_args": list(names)} if sigrev else {}
                 if entry.startswith("label"):
                     far = xyz.label(harvester=(entry == "label-harvester"),
-                                    **desc_kw)(f)
+                                    **fkw, **desc_kw)(f)
                 else:
-                    far = xyz.Runner(f, **desc_kw)
+                    far = xyz.Runner(f, **fkw, **desc_kw)
                 runner = far.runner if entry == "label-harvester" else far
                 if case.get("prev_override"):
                     with xfn.CallLog():
@@ -265,7 +270,8 @@ def check_case(case):
                     if cs is None:
                         far.harvest_combos(combos, **kw)
                     else:
-                        far.harvest_cases(cs, fn_args=list(cnames), combos=(
+                        far.harvest_cases(cs, fn_args=None if sigrev
+                                          else list(cnames), combos=(
                             tuple(combos.items()) if combos else ()), **kw)
                     out = far.full_ds
                     last = far.last_ds
@@ -273,7 +279,8 @@ def check_case(case):
                     if cs is None:
                         out = runner.run_combos(combos, **kw)
                     else:
-                        out = runner.run_cases(cs, fn_args=list(cnames),
+                        out = runner.run_cases(cs, fn_args=None if sigrev
+                                               else list(cnames),
                                                combos=(tuple(combos.items())
                                                        if combos else ()), **kw)
                     last = runner._last_ds if not to_df else None
